@@ -231,6 +231,11 @@ class Check:
     # -- verdict
     def finish(self):
         self.cov["distinct_nontrivial"] = len(self._distinct)
+        if "exhaustive" in self.cov and not isinstance(self.cov["exhaustive"], bool):   # schema: boolean
+            self.cov["exhaustive_scope"] = str(self.cov["exhaustive"])
+            self.cov["exhaustive"] = False
+        if not self.cov.get("samples"):
+            self.cov["samples"] = ["(no case generated)"]
         known = [k for k in load_known() if k.get("property") == self.pid and k.get("kind") == "finding"]
         lines, viol = [], []
         seen = set()
